@@ -124,4 +124,12 @@ theorem loadUnit_bits (u : BitField.USize) (isU : Bool) (x : BitVec u.bits) (i :
   all_goals (rcases hi with hi | hi <;> first | (cases hi; done) | skip)
   all_goals (by_cases h8 : i < 8 <;> by_cases h16 : i < 16 <;> by_cases h32 : i < 32 <;> simp [hi64, h8, h16, h32] <;> first | done | omega | (apply BitVec.getLsbD_of_ge; omega))
 
+/-- a 1- or 2-byte load writes %eax: bits 32..63 of %rax are cleared -/
+theorem loadUnit_high (u : BitField.USize) (isU : Bool) (x : BitVec u.bits) (hu : u.bits < 32) (i : Nat) (h32 : 32 ≤ i) :
+    (loadUnit u isU x).getLsbD i = false := by
+  cases u <;> cases isU <;> simp [USize.bits, USize.bytes] at hu <;>
+    simp only [loadUnit, BitVec.getLsbD_setWidth] <;>
+    (have : ¬ i < 32 := by omega
+     simp [this])
+
 end ChibiVerif.C04X86
